@@ -115,3 +115,39 @@ Fixpoint diag_from (fx : bool) (ss : list st) (bs : list (list op * obs)) (k : n
 
 Definition diag (c : case) : list bool * (nat * list obs) * (nat * list obs) :=
   (ok_batches [] (c_batches c), diag_from false [st0] (c_batches c) 0, diag_from true [st0] (c_batches c) 0).
+
+(* ---------- the preference order itself ----------
+   The property needs "always the same preferred one whatever the update order": the relation used to prefer one
+   endpoint id over another must be a strict total order on ids (irreflexive, exactly one direction between two
+   different ids, transitive).  ok_rel checks this for a relation on a finite cluster of ids. *)
+Definition ok_rel (R : sid -> sid -> bool) (ids : list sid) : bool :=
+  forallb (fun a => negb (R a a)) ids
+  && forallb (fun a => forallb (fun b => if sid_eqb a b then true else xorb (R a b) (R b a)) ids) ids
+  && forallb (fun a => forallb (fun b => forallb (fun c => implb (R a b && R b c) (R a c)) ids) ids) ids.
+
+(* the relation observed on the implementation: res is the matrix wlIdsAscending(ids[i], ids[j]) *)
+Fixpoint row_get (ids : list sid) (row : list bool) (b : sid) : bool :=
+  match ids, row with
+  | i :: ids', r :: row' => if sid_eqb i b then r else row_get ids' row' b
+  | _, _ => false
+  end.
+Fixpoint rel_of (ids : list sid) (rows : list sid) (res : list (list bool)) (a b : sid) : bool :=
+  match rows, res with
+  | i :: t, row :: rt => if sid_eqb i a then row_get ids row b else rel_of ids t rt a b
+  | _, _ => false
+  end.
+Definition shape_ok (ids : list sid) (res : list (list bool)) : bool :=
+  Nat.eqb (length res) (length ids) && forallb (fun row => Nat.eqb (length row) (length ids)) res.
+
+Definition ok_ord (ids : list sid) (res : list (list bool)) : bool :=
+  shape_ok ids res && ok_rel (rel_of ids ids res) ids.
+Definition agree_ord (ids : list sid) (res : list (list bool)) : bool :=
+  list_eqb (list_eqb Bool.eqb) res (map (fun a => map (sasc a) ids) ids).
+
+(* a correspondence case is a history (above) or a cluster of ids with the observed comparison matrix *)
+Inductive case2 := CHist (c : case) | COrd (ids : list sid) (res : list (list bool)).
+Definition check_any (c : case2) : bool * bool :=
+  match c with
+  | CHist c => check_case c
+  | COrd ids res => (agree_ord ids res, ok_ord ids res)
+  end.
